@@ -1344,6 +1344,15 @@ async fn gc_run(sc: &Scenario, chooser: &mut dyn Chooser, mode: &str, st: &mut S
     }
 
     // --- phase 2: the collector against the parked writers
+    // In every second scenario a task can also be parked between the RESPONSE of a read and what it
+    // does with it: the collector's decisions rest on reads (listing aside: the commit-point
+    // re-check), and a writer may commit and leave between such a read and the next check
+    // (seeded change C08-6: in-flight registry consulted after the re-check instead of before).
+    let post_reads = sc.seed % 2 == 0;
+    rec.set_gate_after_reads(post_reads);
+    if post_reads {
+        st.count("gc_runs_with_post_read_parking");
+    }
     let g = ex.spawn({
         let w = w.clone();
         async move { Out::Gc(w.collect_garbage().await.map_err(|e| format!("{e}"))) }
@@ -1413,6 +1422,7 @@ async fn gc_run(sc: &Scenario, chooser: &mut dyn Chooser, mode: &str, st: &mut S
         }
     }
     rec.set_gate(false);
+    rec.set_gate_after_reads(false);
     st.count("gc_interleavings_explored");
     st.eval();
     match &gc_result {
@@ -1643,6 +1653,7 @@ fn main() {
     run.floor("gc_interleavings_explored", 500);
     run.floor_set("gc_distinct_interleavings", 200);
     run.floor("gc_schedule_spaces_exhausted", 3);
+    run.floor("gc_runs_with_post_read_parking", 150);
     run.floor("writers_parked_between_payload_and_pointer", 200);
     run.floor("oracle_inflight_payload_spared", 100);
     run.floor("gc_concurrent_runs_deleted_gt0", 100);
